@@ -94,6 +94,12 @@ def run_shard(spec, ctx):
         ctx.sample({'cells': L, 'compact': a5.compact(list(L))})
     elif spec['part'] == 'random':
         for _ in range(60 * spec['n']):
+            X = list(tree.antichain(cc.head_cascade(rnd, a5, gen)))
+            L = cc.presentations(rnd, X, tree, False)
+            ctx.case(tuple(L), nontrivial=True)
+            ctx.count('head_cascade_cases')
+            eval_case(a5, tree, L, ctx, {'cells': L}, extra=True)
+        for _ in range(60 * spec['n']):
             X = list(tree.antichain(cc.small_mixed(rnd, a5, gen)))
             L = cc.presentations(rnd, X, tree, False)
             ctx.case(tuple(L), nontrivial=True)
